@@ -1,5 +1,123 @@
-import GraphrsModel.ObsComm
+/-
+  C17 — a seed makes Louvain reproducible: the only place where the iteration order of a hash
+  map could influence the result is the candidate scan of `update_best_com`.  After the repair the
+  candidates are visited in increasing community id, so the outcome is independent of the order
+  in which the map hands them over; before the repair it was not (counterexample below).
+-/
+import GraphrsModel.Model.Louvain
+import Mathlib.Data.List.Perm.Basic
+import Mathlib.Data.List.Sort
 namespace Graphrs
-/-- placeholder while the framework is brought up: replaced by the property theorems -/
-theorem C17_coarsens_nil (c : List (List Nat)) : coarsens c [] = true := rfl
+open Louvain
+
+private theorem insertSorted_perm {α} (le : α → α → Bool) (x : α) (l : List α) :
+    (insertSorted le x l).Perm (x :: l) := by
+  induction l with
+  | nil => exact List.Perm.refl _
+  | cons y ys ih =>
+    unfold insertSorted
+    by_cases h : le x y = true
+    · simp [h]
+    · simp only [h]
+      exact (List.Perm.cons y ih).trans (List.Perm.swap x y ys)
+
+private theorem isort_perm {α} (le : α → α → Bool) (l : List α) : (isort le l).Perm l := by
+  induction l with
+  | nil => exact List.Perm.refl _
+  | cons x xs ih =>
+    show (insertSorted le x (isort le xs)).Perm (x :: xs)
+    exact (insertSorted_perm le x _).trans (List.Perm.cons x ih)
+
+private theorem insertSorted_pairwise {α} (le : α → α → Bool)
+    (htotal : ∀ a b, le a b = true ∨ le b a = true)
+    (htrans : ∀ a b c, le a b = true → le b c = true → le a c = true)
+    (x : α) (l : List α) (hl : l.Pairwise (fun a b => le a b = true)) :
+    (insertSorted le x l).Pairwise (fun a b => le a b = true) := by
+  induction l with
+  | nil => simp [insertSorted]
+  | cons y ys ih =>
+    unfold insertSorted
+    rw [List.pairwise_cons] at hl
+    by_cases h : le x y = true
+    · rw [if_pos h, List.pairwise_cons]
+      refine ⟨?_, List.pairwise_cons.mpr hl⟩
+      intro z hz
+      rcases List.mem_cons.mp hz with rfl | hz
+      · exact h
+      · exact htrans _ _ _ h (hl.1 z hz)
+    · rw [if_neg h, List.pairwise_cons]
+      refine ⟨?_, ih hl.2⟩
+      intro z hz
+      have hz' := (insertSorted_perm le x ys).subset hz
+      rcases List.mem_cons.mp hz' with rfl | hz'
+      · rcases htotal z y with h' | h'
+        · exact absurd h' h
+        · exact h'
+      · exact hl.1 z hz'
+
+private theorem isort_pairwise {α} (le : α → α → Bool)
+    (htotal : ∀ a b, le a b = true ∨ le b a = true)
+    (htrans : ∀ a b c, le a b = true → le b c = true → le a c = true)
+    (l : List α) : (isort le l).Pairwise (fun a b => le a b = true) := by
+  induction l with
+  | nil => exact List.Pairwise.nil
+  | cons x xs ih =>
+    show (insertSorted le x (isort le xs)).Pairwise _
+    exact insertSorted_pairwise le htotal htrans x _ ih
+
+private theorem eq_of_key_eq {α β} (f : α → β) (l : List α) (h : (l.map f).Nodup)
+    (a b : α) (ha : a ∈ l) (hb : b ∈ l) (hab : f a = f b) : a = b := by
+  induction l with
+  | nil => cases ha
+  | cons y ys ih =>
+    rw [List.map_cons, List.nodup_cons] at h
+    rcases List.mem_cons.mp ha with ha1 | ha1
+    · rcases List.mem_cons.mp hb with hb1 | hb1
+      · rw [ha1, hb1]
+      · subst ha1
+        exact absurd (hab ▸ List.mem_map_of_mem hb1) h.1
+    · rcases List.mem_cons.mp hb with hb1 | hb1
+      · subst hb1
+        exact absurd (hab ▸ List.mem_map_of_mem ha1) h.1
+      · exact ih h.2 ha1 hb1
+
+/-- sorting by the key gives the same list for every iteration order of a map -/
+theorem isort_key_perm_eq (l1 l2 : List (Nat × Rat)) (hperm : l1.Perm l2)
+    (hkeys : (l1.map (·.1)).Nodup) :
+    isort (fun a b => decide (a.1 ≤ b.1)) l1 = isort (fun a b => decide (a.1 ≤ b.1)) l2 := by
+  have htotal : ∀ a b : Nat × Rat, (fun a b : Nat × Rat => decide (a.1 ≤ b.1)) a b = true ∨
+      (fun a b : Nat × Rat => decide (a.1 ≤ b.1)) b a = true := by
+    intro a b; simp only [decide_eq_true_eq]; omega
+  have htrans : ∀ a b c : Nat × Rat, (fun a b : Nat × Rat => decide (a.1 ≤ b.1)) a b = true →
+      (fun a b : Nat × Rat => decide (a.1 ≤ b.1)) b c = true →
+      (fun a b : Nat × Rat => decide (a.1 ≤ b.1)) a c = true := by
+    intro a b c; simp only [decide_eq_true_eq]; omega
+  have p1 := isort_perm (fun a b : Nat × Rat => decide (a.1 ≤ b.1)) l1
+  have p2 := isort_perm (fun a b : Nat × Rat => decide (a.1 ≤ b.1)) l2
+  refine List.Perm.eq_of_pairwise (le := fun a b : Nat × Rat => decide (a.1 ≤ b.1) = true) ?_
+    (isort_pairwise _ htotal htrans l1) (isort_pairwise _ htotal htrans l2)
+    (p1.trans (hperm.trans p2.symm))
+  intro a b ha hb hab hba
+  simp only [decide_eq_true_eq] at hab hba
+  exact eq_of_key_eq (·.1) l1 hkeys a b (p1.subset ha) (hperm.symm.subset (p2.subset hb))
+    (Nat.le_antisymm hab hba)
+
+/-- the repaired scan does not depend on the iteration order of the candidate map
+    (keys of a map are pairwise distinct) -/
+theorem C17_updateBest_order_independent (gain : Nat → Rat → Rat) (l1 l2 : List (Nat × Rat))
+    (best : Nat × Rat) (hperm : l1.Perm l2) (hkeys : (l1.map (·.1)).Nodup) :
+    updateBest gain l1 best = updateBest gain l2 best := by
+  unfold updateBest
+  rw [isort_key_perm_eq l1 l2 hperm hkeys]
+
+/-- the scan before the repair did depend on it: two candidates with equal gains -/
+theorem C17_unordered_scan_depends_on_order :
+    updateBestUnordered (fun _ w => w) [(1, 1), (2, 1)] (0, 0)
+      ≠ updateBestUnordered (fun _ w => w) [(2, 1), (1, 1)] (0, 0) := by
+  decide
+
+/-- non-vacuity of the first theorem on the same candidates -/
+example : updateBest (fun _ w => w) [(1, 1), (2, 1)] (0, 0) = updateBest (fun _ w => w) [(2, 1), (1, 1)] (0, 0) := by
+  decide
+
 end Graphrs
